@@ -282,9 +282,9 @@ where
         let mut filtered_kmers = Vec::new();
         let mut removed = 0;
 
-        if filter_ambig_as_missing {
-            self.update_counts(true);
-        }
+        // Stored counts may have been made under a different setting (they are
+        // saved in the file), so always recount
+        self.update_counts(filter_ambig_as_missing);
 
         for count_it in self
             .variant_count
